@@ -61,6 +61,8 @@ fixed('F24', ['C14', 'C01'], 'A5q', 'adsg_core.optimization.hierarchy.fast:FastH
       'the fast encoder raised for in-range vectors of a feasible design space: an option that necessarily confirms two incompatible nodes (S -> C0[A|B|D], B -> C, B -> C1[E|F], C x B) gives an infeasible graph in which C1 is never activated -> RuntimeError "Selection-choice nodes left" for [1,*]; with a second choice level the infeasible graph still named a removed choice node -> NetworkXError (witness/w24; 31 of 1800 random graphs)', 'witness/w24', 'rejects a candidate vector whose graph becomes infeasible')
 fixed('F25', ['C13', 'C01'], 'A14p', 'adsg_core.graph.choice_constraints:get_constraint_pre_removed_options:A14p:permutation-overflow-only-if-all-permanent',
       'a PERMUTATION constraint over more conditionally active choices than options removed every option of every constrained choice up front and the whole design space was reported infeasible, although choices that are not active together are unconstrained (C0 activates 1, 2 or 3 of three constrained choices with two options each: 4 architectures are admitted, GraphProcessor raised "no feasible graphs to begin with" with both encoders; witness/w26)', 'witness/w26', 'no longer remove all options up front')
+fixed('F26', ['C20'], 'A6', 'adsg_core.graph.sup.dsg:SupSelChoiceOptionMapping.resolve:A6:every-originating-node-kept',
+      'a source selection choice with two originating nodes (B below the conditional option n2 of choice A and, by an extra edge, below the permanent node n0) is active in every source architecture; the option mapping kept only the first in-edge, so for the architectures with n2 absent resolve() raised "B is inactive, but `None` is missing from the mapping" (with a None entry it would have applied that entry) instead of the option mapped to the selected one (witness/w27)', 'witness/w27', 'consider every originating node')
 known('F7', ['C07', 'C03'], 'A6', 'adsg_core.optimization.assign_enc.encoding:EagerEncoder.get_matrix:A6:raw-vector-returned:return (list(vector) + extra_vector, matrix[i_mat, :, :])',
       'on a direct hit the eager encoder returns the input vector instead of the stored -1-marked one, so conditionally inactive variables are reported active (30 vectors in witness/w07)',
       'witness/w07', 'returning the stored vector changes what is_valid_vector(get_matrix(x)[0]) answers and breaks 6 existing tests; not a small repair')
